@@ -142,6 +142,8 @@ package db
 //@   requires db.header == nil ==> db.dirty && (forall q int :: !has(db.btreeCache.elem, q))
 //@   requires !db.dirty ==> db.header.ChangeCounter == cc_now && hdr_valid
 //@   ensures [clean] err == nil ==> !db.dirty && db.header != nil && db.header.ChangeCounter == cc_now
+//@   ensures [stilldirty] err != nil ==> db.dirty
+//@   ensures [cacheptr] db.objectCache == nil || db.objectCache == old(db.objectCache)
 //@   ensures [validated] err == nil ==> hdr_valid
 //@   ensures [handles] db.l == old(db.l)
 //@   ensures [hot] JR_ENV() && old(db.dirty) && old(db.journal) != "" && jr_exists && jrnl_hot(jr_bytes, jr_len) && peer_stable && old(peer_state) < 2 ==> err != nil
@@ -157,6 +159,7 @@ package db
 //@   requires db != nil
 //@   ensures [clean] err == nil ==> !db.dirty && db.header != nil && db.header.ChangeCounter == cc_now
 //@   ensures [current] err == nil ==> r0 != nil && repr(r0, page, db.header.ChangeCounter)
+//@   ensures [cacheptr] db.objectCache == nil || db.objectCache == old(db.objectCache)
 //@   ensures [cache] err == nil ==> db.btreeCache != nil && db.btreeCache.elem != nil && CACHE_OK(db)
 
 // ---------------------------------------------------------------------------------------
@@ -177,7 +180,9 @@ package db
 //@ macro MASTER_OK(objs) = (forall qo int :: 0 <= qo && qo < len(objs) ==> lowered(objs[qo].name) && lowered(objs[qo].tblName))
 //@ type-invariant db.objectCache = MASTER_OK(self.objects)
 
-// master: the header is re-validated (resolveDirty) before a cached schema is handed out; otherwise
+// master: a schema cache entry made by a failed walk records the failure (a later call must not
+// hand out the partial object list as complete);
+// the header is re-validated (resolveDirty) before a cached schema is handed out; otherwise
 // every row of the sqlite_master table (root page 1) is read.
 //@ func (*db.Database).master
 //@   ghost-entry rb = 31
@@ -192,6 +197,7 @@ package db
 //@   ghost-entry searching = false
 //@   ensures [fresh] err == nil ==> hdr_valid
 //@   ensures [normalised] MASTER_OK(r0)
+//@   ensures [cachederr] err != nil && db.objectCache != nil && fresh(db.objectCache) ==> db.objectCache.err != nil
 //@   ghost-exit cur_tree = old(cur_tree)
 //@   ghost-exit pos = old(pos)
 //@   ghost-exit halt = old(halt)
